@@ -1514,7 +1514,17 @@ void AsyncSim::quiesce() {
 		// an error PDU that a server had issued before the faults stopped and that reached the client only while the fresh request
 		// was outstanding fails it legitimately (reached: arrived at the socket, or was taken from the socket by the client - an
 		// error PDU bears no request id, so one that sat unread in the socket buffer when the request was added is applied to it)
-		if (!fresh.att.empty()) for (auto &f : frames) if (f.info.has_error && (f.arrive_seq > fresh.att.back().accepted_seq || f.read_seq == 0 || f.read_seq > fresh.att.back().accepted_seq)) { stream_corrupted = true; K.count("probe.fresh_request_met_late_error_pdu"); }
+		// The same holds for any other reply of before that the client cannot accept (malformed, unauthenticated, or - extending
+		// service - a calendar chain that contradicts its request): the sub-service fails whatever waits at that endpoint.
+		if (!fresh.att.empty()) for (auto &f : frames) {
+			bool unacceptable = f.info.has_error || f.bad;
+			if (!unacceptable && svc_ext && f.clean_resp) {
+				if (!f.info.has_cal || !f.info.cal_shape_ok) unacceptable = true;
+				for (auto &r : recs) for (auto &at : r->att) if (at.id == f.info.id && !unacceptable)
+					if (f.info.cal_agg != r->agg_time || (r->has_pub && f.info.cal_pub != r->pub_time)) unacceptable = true;
+			}
+			if (unacceptable && (f.arrive_seq > fresh.att.back().accepted_seq || f.read_seq == 0 || f.read_seq > fresh.att.back().accepted_seq)) { stream_corrupted = true; K.count("probe.fresh_request_met_late_error_pdu"); }
+		}
 		// ... also when a frame that claims more bytes than the server ever sent is still open: everything that follows is swallowed into it
 		for (auto &e : eps) if (!e.http) for (auto &cp : N.conns) if (cp->ep == e.net_ep && !cp->client_closed) {
 			auto it = e.conn_parsed.find(cp->idx);
